@@ -180,7 +180,11 @@ func LedgerEvents(t int, sc *Scenario, tr *Transcript) []LedgerEvent {
 				}
 			}
 		}
-		for c, v := range b.allowWrapped(prevState) {
+		wrapped := "ETH"
+		if sc.Genesis.Erc20 {
+			wrapped = "TTC"
+		}
+		for c, v := range b.allowWrapped(prevState, wrapped) {
 			allow[c] += v
 		}
 		var sl []string
